@@ -296,3 +296,355 @@ def summarize_distribution(dist):
         else:
             agg["%s:%s" % (stream, key)] += v
     return dict(sorted(agg.items()))
+
+
+# ==================================================================================================
+# state-level oracles: walk a stream, tracking the implementation's states by name
+# ==================================================================================================
+
+def parse_tx(tok):
+    f = tok.split("|")
+    if len(f) != 12:
+        return None
+    lst = lambda s: [] if s == "-" else s.split(",")
+    tx = {"kind": int(f[0]), "inputs": lst(f[1]), "fee": int(f[3]), "covenants": lst(f[4]), "data": f[5], "sigs": lst(f[6]),
+          "hash": f[7], "rawlen": int(f[8]), "stakedoc": None if f[10] == "-" else f[10].split(":"), "pow": f[11], "outputs": []}
+    for o in lst(f[2]):
+        cov, val, den, ad = o.split(":")
+        tx["outputs"].append({"cov": cov, "value": int(val), "denom": den, "ad": ad})
+    return tx
+
+
+ZERO = "00" * 32
+K_NORMAL, K_STAKE, K_DOSC, K_SWAP, K_DEP, K_WD, K_FAUCET = 0x00, 0x10, 0x50, 0x51, 0x52, 0x53, 0xff
+
+
+def parse_oracle_items(tok):
+    d = {"f": {}, "g": set(), "l": {}, "r": {}}
+    if tok == "-":
+        return d
+    for it in tok.split(","):
+        p = it.split(":")
+        if p[0] == "f":
+            d["f"][p[1]] = p[2]
+        elif p[0] == "g":
+            d["g"].add(p[1])
+        elif p[0] == "l":
+            d["l"][p[1]] = p[2]
+        elif p[0] == "r":
+            d["r"][int(p[1])] = p[2]
+    return d
+
+
+def walk(ops, impl):
+    """yields (i, kind, tokens, pre_state_dump, post_state_dump_or_None, status, txs, oracle_items)"""
+    states = {}
+    txdb = {}
+    for i, (o, a) in enumerate(zip(ops, impl)):
+        t = o.split(" ")
+        kind = t[0]
+        st, d, pre = parse_result(a)
+        if kind == "reset":
+            states = {}
+            txdb = {}
+            continue
+        if kind in ("fab", "genesis"):
+            if d is not None:
+                states[t[1]] = d
+            yield i, kind, t, None, d, st, [], {}
+        elif kind in ("next", "seal", "restore"):
+            p = states.get(t[1])
+            if d is not None:
+                states[t[2]] = d
+            orc = parse_oracle_items(t[4]) if kind == "seal" else {}
+            blocktxs = [txdb.get(h) for h in (p or {}).get("txs", [])] if kind == "seal" else []
+            yield i, kind, t, p, d, st, blocktxs, orc
+        elif kind == "batch":
+            p = states.get(t[1])
+            txs = [] if t[5:] == ["-"] else [parse_tx(x) for x in t[5:]]
+            for x in txs:
+                if x is not None:
+                    txdb[x["hash"]] = x
+            if d is not None:
+                states[t[2]] = d
+            yield i, kind, t, p, d, st, txs, parse_oracle_items(t[4])
+        elif kind == "block":
+            p = states.get(t[1])
+            txs = [] if t[10:] == ["-"] else [parse_tx(x) for x in t[10:]]
+            for x in txs:
+                if x is not None:
+                    txdb[x["hash"]] = x
+            if d is not None:
+                states[t[2]] = d
+            yield i, kind, t, p, d, st, txs, parse_oracle_items(t[9])
+
+
+def coins_dict(d):
+    return {c["id"]: c for c in (parse_coin(e) for e in d.get("coins", []))}
+
+
+def legacy(net, height, limit):
+    return net in (255, 1) and height < limit
+
+
+def oracle_utxo_reference(ops, impl, model):
+    """C02: after an accepted batch the coin set equals an independent map-based reference:
+    previous coins - inputs + outputs (not destroyed; NewCustom -> Custom(txhash); creating height) + faucet markers;
+    accepted batches spend only existing-or-created coins, each at most once."""
+    out = []
+    for i, kind, t, pre, post, st, txs, orc in walk(ops, impl):
+        if kind != "batch" or pre is None or post is None or any(x is None for x in txs):
+            continue
+        h = int(pre["h"])
+        ref = coins_dict(pre)
+        created = {}
+        for tx in txs:
+            for k, o in enumerate(tx["outputs"]):
+                if o["cov"] == ZERO:
+                    continue
+                den = tx["hash"] if o["denom"] == "" else o["denom"]
+                created["%s:%d" % (tx["hash"], k)] = {"id": "%s:%d" % (tx["hash"], k), "cov": o["cov"], "value": o["value"], "denom": den, "ad": o["ad"], "height": h}
+        inputs = [x for tx in txs for x in tx["inputs"]]
+        problems = []
+        if len(set(inputs)) != len(inputs):
+            problems.append("accepted batch spends a coin twice")
+        for x in inputs:
+            if x not in ref and x not in created:
+                problems.append("accepted batch spends missing coin %s" % x[:20])
+        ref.update(created)
+        for tx in txs:
+            if tx["kind"] == K_FAUCET and tx["hash"] not in orc["g"]:
+                m = "%s:0" % orc["f"].get(tx["hash"], "?")
+                ref[m] = {"id": m, "cov": ZERO, "value": 0, "denom": MEL, "ad": "", "height": 0}
+        for x in inputs:
+            ref.pop(x, None)
+        got = coins_dict(post)
+        if got != ref:
+            lost = [k for k in ref if k not in got][:3]
+            extra = [k for k in got if k not in ref][:3]
+            diff = [k for k in ref if k in got and got[k] != ref[k]][:3]
+            problems.append("coin set differs from reference: missing %s unexpected %s altered %s" % (lost, extra, diff))
+        for p in problems:
+            out.append({"line": i, "op": " ".join(t)[:3000], "detail": p, "opkind": "batch"})
+    return out
+
+
+def declared_issuance(txs, orc):
+    """what a batch may create out of nothing, per denomination"""
+    iss = collections.Counter()
+    for tx in txs:
+        if tx["kind"] == K_FAUCET:
+            for o in tx["outputs"]:
+                den = tx["hash"] if o["denom"] == "" else o["denom"]
+                if o["cov"] != ZERO:
+                    iss[den] += o["value"]
+            iss[MEL] += tx["fee"]
+        else:
+            for o in tx["outputs"]:
+                if o["denom"] == "" and o["cov"] != ZERO:
+                    iss[tx["hash"]] += o["value"]
+                if tx["kind"] == K_DOSC and o["denom"] == ERG and o["cov"] != ZERO:
+                    iss[ERG] += o["value"]
+    return iss
+
+
+def oracle_conservation(ops, impl, model):
+    """C01: totals per denomination never grow except by the declared issuance of a batch; at sealing only MEL/SYM
+    (subsidy, peg — bounded by the proven model's own result) and liquidity tokens (C16) may grow"""
+    out = []
+    mstates = {}
+    for (i, kind, t, pre, post, st, txs, orc), (_, _, _, mpre, mpost, _, _, _) in zip(walk(ops, impl), walk(ops, model)):
+        if pre is None or post is None:
+            continue
+        a, b = supply(pre), supply(post)
+        if kind == "batch":
+            if any(x is None for x in txs):
+                continue
+            iss = declared_issuance(txs, orc)
+            for den in set(a) | set(b):
+                if b[den] > a[den] + iss[den]:
+                    out.append({"line": i, "op": " ".join(t)[:3000], "opkind": "batch",
+                                "detail": "denomination %s grew from %d to %d, declared issuance %d" % (den[:16] or "(newcustom)", a[den], b[den], iss[den])})
+        elif kind == "next":
+            for den in set(a) | set(b):
+                if b[den] != a[den]:
+                    out.append({"line": i, "op": " ".join(t)[:300], "opkind": "next", "detail": "next_unsealed changed the total of %s" % den[:16]})
+        elif kind == "seal":
+            liq = set(orc.get("l", {}).values())
+            bound = supply(mpost) if mpost is not None else None
+            # the nobody-owned initial liquidity of a builtin pool created by this seal (10^9 on each side)
+            pre_pools = set(e.split("=")[0] for e in pre.get("pools", []))
+            for e in post.get("pools", []):
+                k = e.split("=")[0]
+                if k not in pre_pools and k in ("73", "64", ZERO + "016401" + "73"):
+                    l, r = pool_sides(k)
+                    a[l] += 10 ** 9
+                    a[r] += 10 ** 9
+            for den in set(a) | set(b):
+                if den in liq:
+                    continue
+                if den in (MEL, SYM):
+                    if bound is not None and b[den] > max(bound[den], a[den]):
+                        out.append({"line": i, "op": " ".join(t)[:600], "opkind": "seal",
+                                    "detail": "sealing grew %s from %d to %d, more than subsidy+peg allow (%d)" % (den, a[den], b[den], bound[den])})
+                elif b[den] > a[den]:
+                    legacy_dep = legacy(int(pre["net"]), int(pre["h"]), 978392) and any(x is not None and x["kind"] == K_DEP for x in txs)
+                    out.append({"line": i, "op": " ".join(t)[:600], "opkind": "seal", "legacy": "deposit-window" if legacy_dep else "no",
+                                "detail": "sealing grew denomination %s from %d to %d" % (den[:16], a[den], b[den])})
+    return out
+
+
+def oracle_fees(ops, impl, model):
+    """C05: fee pool + tips grow by exactly the fees of an accepted batch (each part monotonically); the proposer
+    reward is one coin worth fee_pool/65536 + tips and both accumulators drop by exactly that"""
+    out = []
+    for i, kind, t, pre, post, st, txs, orc in walk(ops, impl):
+        if pre is None or post is None:
+            continue
+        fp0, tp0, fp1, tp1 = int(pre["fp"]), int(pre["tips"]), int(post["fp"]), int(post["tips"])
+        if kind == "batch" and not any(x is None for x in txs):
+            fees = sum(tx["fee"] for tx in txs)
+            if fp1 + tp1 != fp0 + tp0 + fees and fp0 + tp0 + fees < 2 ** 128 - 1:
+                out.append({"line": i, "op": " ".join(t)[:3000], "opkind": "batch", "detail": "fee pool + tips moved by %d, fees paid %d" % (fp1 + tp1 - fp0 - tp0, fees)})
+            if fp1 < fp0 or tp1 < tp0:
+                out.append({"line": i, "op": " ".join(t)[:3000], "opkind": "batch", "detail": "fee pool or tips decreased in a batch"})
+        if kind == "seal":
+            h = int(pre["h"])
+            rid = "%s:0" % orc["r"].get(h, "?")
+            c0, c1 = coins_dict(pre), coins_dict(post)
+            if t[3] == "-":
+                if tp1 != tp0:
+                    out.append({"line": i, "op": " ".join(t)[:600], "opkind": "seal", "detail": "sealing without an action changed the tips"})
+                if rid in c1 and rid not in c0:
+                    out.append({"line": i, "op": " ".join(t)[:600], "opkind": "seal", "detail": "reward coin created without a proposer action"})
+            else:
+                dest = t[3].split(":")[1]
+                rc = c1.get(rid)
+                if rc is None:
+                    out.append({"line": i, "op": " ".join(t)[:600], "opkind": "seal", "detail": "no reward coin after sealing with an action"})
+                    continue
+                base = rc["value"] - tp0
+                fp2 = fp1 + base            # fee pool after Melmint and subsidy, before the reward was taken
+                if base < 0 or base != fp2 >> 16 or tp1 != 0 or rc["cov"] != dest or rc["denom"] != MEL or rc["height"] != h:
+                    out.append({"line": i, "op": " ".join(t)[:600], "opkind": "seal",
+                                "detail": "reward coin %s does not equal fee_pool/65536 + tips (fee pool before reward %d, tips %d, tips after %d)" % (rc, fp2, tp0, tp1)})
+    return out
+
+
+def oracle_stakes(ops, impl, model):
+    """C13: registration exactly under the stated conditions; no accepted batch spends an output of a registered stake"""
+    out = []
+    for i, kind, t, pre, post, st, txs, orc in walk(ops, impl):
+        if pre is None:
+            continue
+        net, h = int(pre["net"]), int(pre["h"])
+        stakes0 = {e.split("=")[0]: e.split("=")[1] for e in pre.get("stakes", [])}
+        if kind == "batch" and post is not None and not any(x is None for x in txs):
+            stakes1 = {e.split("=")[0]: e.split("=")[1] for e in post.get("stakes", [])}
+            epoch = h // 200000
+            want = dict(stakes0)
+            newly = set()
+            for tx in txs:
+                if tx["kind"] != K_STAKE or legacy(net, h, 500000):
+                    continue
+                sd = tx["stakedoc"]
+                if sd is None or not tx["outputs"] or tx["outputs"][0]["denom"] != SYM:
+                    out.append({"line": i, "op": " ".join(t)[:3000], "opkind": "batch", "detail": "accepted a malformed stake transaction"})
+                    continue
+                pk, s, e, amt = sd[0], int(sd[1]), int(sd[2]), int(sd[3])
+                if s > epoch and e > s and amt == tx["outputs"][0]["value"]:
+                    want[tx["hash"]] = ":".join(sd)
+                    newly.add(tx["hash"])
+            if want != stakes1:
+                out.append({"line": i, "op": " ".join(t)[:3000], "opkind": "batch", "detail": "stake set after the batch differs from the registration rule: expected %d entries, got %d" % (len(want), len(stakes1))})
+            if not legacy(net, h, 900000):
+                for tx in txs:
+                    for x in tx["inputs"]:
+                        if x.split(":")[0] in stakes0 or x.split(":")[0] in newly:
+                            out.append({"line": i, "op": " ".join(t)[:3000], "opkind": "batch", "detail": "accepted a spend of an output of a registered stake (%s)" % x[:24]})
+        if kind == "next" and post is not None:
+            stakes1 = {e.split("=")[0]: e.split("=")[1] for e in post.get("stakes", [])}
+            ep = int(post["h"]) // 200000
+            want = {k: v for k, v in stakes0.items() if int(v.split(":")[2]) >= ep}
+            if want != stakes1:
+                out.append({"line": i, "op": " ".join(t)[:300], "opkind": "next", "detail": "stakes after next_unsealed differ from 'retain e_post_end >= epoch'"})
+    return out
+
+
+def oracle_faucet(ops, impl, model):
+    """C19: no faucet accepted on mainnet (except the grandfathered hash); a faucet whose marker exists is rejected"""
+    out = []
+    for i, kind, t, pre, post, st, txs, orc in walk(ops, impl):
+        if kind not in ("batch", "block") or pre is None or any(x is None for x in txs):
+            continue
+        accepted = post is not None
+        net = int(pre["net"])
+        c0 = coins_dict(pre)
+        for tx in txs:
+            if tx["kind"] != K_FAUCET:
+                continue
+            marker = "%s:0" % orc["f"].get(tx["hash"], "?")
+            if accepted and net == 255 and tx["hash"] not in orc["g"]:
+                out.append({"line": i, "op": " ".join(t)[:3000], "opkind": kind, "detail": "faucet accepted on mainnet"})
+            if accepted and kind == "batch" and marker in c0:
+                out.append({"line": i, "op": " ".join(t)[:3000], "opkind": kind, "detail": "faucet accepted although its marker is already in the coin set (replay)"})
+            if accepted and kind == "batch" and tx["hash"] not in orc["g"] and marker not in coins_dict(post):
+                out.append({"line": i, "op": " ".join(t)[:3000], "opkind": kind, "detail": "accepted faucet left no marker"})
+            if accepted and sum(1 for x in txs if x["hash"] == tx["hash"]) > 1 and tx["hash"] not in orc["g"]:
+                out.append({"line": i, "op": " ".join(t)[:3000], "opkind": kind, "detail": "the same faucet accepted twice in one batch"})
+    return out
+
+
+def oracle_panics(ops, impl, model):
+    """C09: applying and sealing never panic"""
+    out = []
+    for i, (o, a) in enumerate(zip(ops, impl)):
+        if a.split(" ")[0] in ("panic", "abort", "timeout"):
+            out.append({"line": i, "op": o[:3000], "detail": "the implementation panicked", "opkind": o.split(" ")[0], "impl": a})
+    return out
+
+
+BUILTINS = [("73", 0), ("64", 0), (ZERO + "01" + "64" + "01" + "73", 180000)]
+
+
+def tip902(net, h):
+    return h >= 180000 if net == 255 else (h >= 500 if net == 1 else True)
+
+
+def oracle_pools(ops, impl, model):
+    """C16: after every seal the builtin pools exist with reserves; liquidity tokens in coins never exceed pool.liqs"""
+    out = []
+    for i, kind, t, pre, post, st, txs, orc in walk(ops, impl):
+        if kind != "seal" or post is None:
+            continue
+        net, h = int(post["net"]), int(post["h"])
+        pools = {}
+        for e in post.get("pools", []):
+            k, v = e.split("=")
+            pools[k] = [int(x) for x in v.split(":")]
+        need = ["73", "64"] + ([ZERO + "016401" + "73"] if tip902(net, h) else [])
+        for k in need:
+            if k not in pools or pools[k][0] == 0 or pools[k][1] == 0:
+                out.append({"line": i, "op": " ".join(t)[:600], "opkind": "seal", "detail": "builtin pool %s missing or without reserves: %s" % (k[-6:], pools.get(k))})
+        liq = orc.get("l", {})
+        held = collections.Counter()
+        for c in coins_dict(post).values():
+            held[c["denom"]] += c["value"]
+        for kb, den in liq.items():
+            if held[den] > 0:
+                p = pools.get(kb)
+                if p is None or held[den] > p[3]:
+                    out.append({"line": i, "op": " ".join(t)[:600], "opkind": "seal", "pool": kb[-8:],
+                                "detail": "liquidity tokens held (%d) exceed the pool's recorded liquidity (%s)" % (held[den], None if p is None else p[3])})
+    return out
+
+
+ORACLES.update({
+    "utxo_reference": oracle_utxo_reference,
+    "conservation": oracle_conservation,
+    "fees": oracle_fees,
+    "stakes": oracle_stakes,
+    "faucet": oracle_faucet,
+    "panics": oracle_panics,
+    "pools": oracle_pools,
+})
